@@ -12,6 +12,28 @@ WORKERS = {
 }
 
 
+def alias_ap(prog, f, pos, n, depth=0):
+    """access path of a pointer argument, looking through a local pointer that has a single
+    reaching definition (struct channel_reader* const rd = &self->video[i].monitor.reader)"""
+    from . import congr
+    n0 = ir.strip(n)
+    if isinstance(n0, dict) and n0.get("k") == "var" and "p" not in n0 and n0.get("pd") and depth < 4:
+        d = congr.reaching_def(f, pos, n0["id"])
+        if d is not None:
+            return alias_ap(prog, f, pos, d, depth + 1)
+    return ir.ap(n0)
+
+
+def alias_member_ap(prog, f, pos, n):
+    """access path of  p->field  where p is a local alias of  &obj : obj.field"""
+    n0 = ir.strip(n)
+    if isinstance(n0, dict) and n0.get("k") == "mem" and n0.get("arrow"):
+        b = alias_ap(prog, f, pos, n0["b"])
+        if b and b.startswith("&"):
+            return b[1:] + "." + n0["f"]
+    return ir.ap(n0)
+
+
 def calls(s, name):
     return [c for c in ir.calls_in(s) if c.get("fn") == name]
 
@@ -103,11 +125,21 @@ def rule_loop_until_empty(prog, res, fname, which, rule="LOOP-UNTIL"):
     maps = paths.find(f, has_call("channel_read_map"))
     if not maps:
         raise AnalysisBroken("%s no longer maps a reader" % fname)
-    # the last map in source order is the flush
+    # the flushes: every mapping that is not inside the running loop's inner loop (the terminating
+    # flush, and a discard on an error path); "first" = the first map in source order
     maps.sort(key=lambda x: x[2].get("line", 0))
-    bid, i, s = maps[-1] if which == "last" else maps[0]
+    nat = paths.natural_loops(f)
+    if which == "last":
+        targets = [m for m in maps if sum(1 for h, body in nat if m[0] in body) <= 1] or [maps[-1]]
+    else:
+        targets = [maps[0]]
+    for bid, i, s in targets:
+        _loop_until_empty_one(prog, res, f, fname, bid, i, s, rule)
+
+
+def _loop_until_empty_one(prog, res, f, fname, bid, i, s, rule):
     loop = paths.innermost_loop(f, bid)
-    inst = "%s: flush loop runs until an empty slice" % fname
+    inst = "%s: flush loop (line %s) runs until an empty slice" % (fname, s.get("line"))
     if not loop:
         res.fail(rule, inst, "%s|%s|no-loop" % (rule, fname), f.loc(s),
                  "%s flushes its reader with a single channel_read_map: data committed in a second lap is left behind" % fname)
@@ -241,7 +273,7 @@ def rule_unmapped_pre(prog, res, rule="R-UNMAPPED-PRE"):
     for f in prog.all_funcs():
         for b, i, s in f.all_stmts():
             for c in calls(s, "channel_read_map"):
-                rd = ir.ap(c["args"][1]) or ""
+                rd = alias_ap(prog, f, (b.id, i), c["args"][1]) or ""
                 if "monitor" not in rd:
                     continue
                 n += 1
@@ -254,14 +286,14 @@ def rule_unmapped_pre(prog, res, rule="R-UNMAPPED-PRE"):
                         neg = not neg
                         c0 = ir.strip(c0["e"])
                     if isinstance(c0, dict) and c0.get("k") == "bin" and c0["op"] == "==" and ir.is_const(c0["r"], 0):
-                        p = ir.ap(c0["l"]) or ""
+                        p = alias_member_ap(prog, f, (blk.id, blk.cond if blk.cond is not None else len(blk.stmts)), c0["l"]) or ""
                         if p.endswith("reader.state") and p.startswith(rd.lstrip("&").rsplit(".reader", 1)[0]):
                             return lab == ("false" if neg else "true")
                     return False
                 dom, _ = paths.edge_dominated(f, (b.id, i), state_test)
 
                 def unmaps(ss, rd=rd):
-                    return any((ir.ap(cc["args"][1]) or "") == rd for cc in calls(ss, "channel_read_unmap"))
+                    return any((ir.ap(cc["args"][1]) or "") == rd or ir.ap(cc["args"][1]) == ir.ap(c["args"][1]) for cc in calls(ss, "channel_read_unmap"))
                 pre, _ = paths.all_paths_pass(f, "entry", {(b.id, i)}, unmaps)
                 inst = "%s: monitor reader unmapped before channel_read_map" % f.name
                 if dom:
@@ -281,6 +313,7 @@ def rule_passthrough(prog, res, rule="R-PASSTHROUGH"):
         f = prog.func(name)
         res.touched(f)
         cs = [c for b, i, s in f.all_stmts() for c in calls(s, callee)]
+        cpos = [(b.id, i) for b, i, s in f.all_stmts() for c in calls(s, callee)]
         if len(cs) != 1:
             raise AnalysisBroken("%s: expected one %s call" % (name, callee))
         # compare shapes, not spellings: local variable / parameter names are
@@ -293,7 +326,7 @@ def rule_passthrough(prog, res, rule="R-PASSTHROUGH"):
                     vnames.add(y["n"])
         pat = _re.compile(r"(?<![\w.>])(%s)\b" % "|".join(sorted(map(_re.escape, vnames), key=len, reverse=True))) if vnames else None
         norm = lambda a_: pat.sub("$", a_) if (pat and a_) else a_
-        pairs[name] = (norm(ir.ap(cs[0]["args"][0])), norm(ir.ap(cs[0]["args"][1])))
+        pairs[name] = (norm(alias_ap(prog, f, cpos[0], cs[0]["args"][0])), norm(alias_ap(prog, f, cpos[0], cs[0]["args"][1])))
     a, b = pairs["acquire_map_read"], pairs["acquire_unmap_read"]
     inst = "acquire_map_read / acquire_unmap_read use the same (channel, reader)"
     ok = a == b and a[0] and a[0].endswith("sink.in") and a[1].endswith("monitor.reader") and \
@@ -391,13 +424,38 @@ def rule_stop_sequence(prog, res, rule="R-STOP-SEQ"):
                      "acquire_stop can return without looking at the streams (an early exit): workers are not joined and the monitor is not flushed, so frames of the finished acquisition are delivered in the next one",
                      {"path_blocks": wit})
     # state
-    st = [s for b, i, s in f.all_stmts() for lv, op, rhs, w in ir.writes_of(s)
-          if lv.get("k") == "mem" and lv["f"] == "state" and isinstance(ir.strip(rhs), dict) and ir.strip(rhs).get("e") == "DeviceState_Armed"]
+    rule_stop_armed(prog, res, rule)
+
+
+def rule_stop_armed(prog, res, rule="R-STOP-SEQ"):
+    """acquire_stop (the tail of acquire_abort too) reports Armed: on every path to a return the
+    runtime's state member has been assigned the enumerator DeviceState_Armed itself - not a value
+    computed from the previous state - and nothing else is assigned to it afterwards."""
+    f = prog.func("acquire_stop")
+    res.touched(f)
+
+    def state_store(s_):
+        return [(lv, rhs) for lv, op, rhs, w in ir.writes_of(s_) if lv.get("k") == "mem" and lv["f"] == "state"]
+
+    def armed(s_):
+        return any(isinstance(ir.strip(rhs), dict) and ir.strip(rhs).get("k") == "int" and ir.strip(rhs).get("e") == "DeviceState_Armed"
+                   for lv, rhs in state_store(s_))
     inst = "acquire_stop leaves the runtime Armed"
-    if st:
-        res.oblige(rule, inst, True, "", f.loc(st[0]))
+    ok, wit = paths.all_paths_pass(f, "entry", "exit", armed)
+    others = [(b.id, i, s_) for b, i, s_ in f.all_stmts() if state_store(s_) and not armed(s_)]
+    late = []
+    for b, i, s_ in f.all_stmts():
+        if armed(s_):
+            late += paths.reachable_after(f, (b.id, i), lambda q: bool(state_store(q)) and not armed(q))
+    if ok and not late:
+        res.oblige(rule, inst, True, "state = DeviceState_Armed on every path to the return, nothing assigned to it afterwards", f.loc())
+    elif others:
+        res.fail(rule, inst, "%s|armed" % rule, f.loc(others[0][2]),
+                 "acquire_stop assigns the runtime state a value other than the enumerator DeviceState_Armed (%s): after a rejected start the state is AwaitingConfiguration, "
+                 "and stop / abort then return without reporting Armed although the devices are open and armed" % ir.render(others[0][2]))
     else:
-        res.fail(rule, inst, "%s|armed" % rule, f.loc(), "acquire_stop does not set the runtime state to Armed")
+        res.fail(rule, inst, "%s|armed" % rule, f.loc(), "acquire_stop does not set the runtime state to Armed on every path to its return",
+                 {"path_blocks": wit})
 
 
 def rule_abort_sequence(prog, res, rule="R-ABORT-SEQ"):
@@ -562,6 +620,13 @@ def rule_start_reset(prog, res, rule="R-START-RESET"):
 def rule_sink_error_path(prog, res, rule="R-SINK-ERROR"):
     f = prog.func("video_sink_thread")
     res.touched(f)
+
+    def refuses_own_input(x):
+        for c in calls(x, "channel_accept_writes"):
+            a = c.get("args", [])
+            if len(a) == 2 and ir.is_const(a[1], 0) and (ir.ap(a[0]) or "").lstrip("&").endswith("->in"):
+                return True
+        return False
     def appends_(x):
         return bool(calls(x, "storage_append")) or paths.stmt_reaches(prog, f, x, {"storage_append"})
     appends = [(b.id, i, s) for b, i, s in f.all_stmts() if appends_(s)]
@@ -592,13 +657,19 @@ def rule_sink_error_path(prog, res, rule="R-SINK-ERROR"):
                 ("sig_stop_source", indirect_call("sig_stop_source"), "the source keeps filling the ring nobody reads"),
                 ("channel_read_unmap", has_call("channel_read_unmap"), "the sink's reader stays mapped: the next acquisition's first map discards data"),
                 ("storage_stop", has_call("storage_stop"), "the storage is never stopped"),
-                ("is_running = 0", stores_const("is_running", 0), "the runtime keeps reporting Running")):
+                ("is_running = 0", stores_const("is_running", 0), "the runtime keeps reporting Running"),
+                ("channel_read_map (discard what is left)", has_call("channel_read_map"),
+                 "the frames still in its input stay there and are handed to the storage of the NEXT acquisition before that acquisition's own frame 0"),
+                ("channel_accept_writes(in, 0)", refuses_own_input,
+                 "its reader stays registered at its last position, so a source (or filter) that is blocked in channel_write_map on the full ring "
+                 "is never released - the stop request is not part of the writer's wait predicate - and acquire_stop waits for ever in thread_join")):
             ok, wit = paths.all_paths_pass(f, (fail_t, -1), "exit", paths.through_callees(prog, f, pred))
             inst = "video_sink_thread: failed append (line %s) -> %s" % (line, name)
             if ok:
                 res.oblige(rule, inst, True, "", f.loc(s))
             else:
-                res.fail(rule, inst, "%s|%s" % (rule, name.split(" ")[0]), f.loc(s),
+                kname = "refuse-writes" if name.startswith("channel_accept_writes") else ("discard-rest" if name.startswith("channel_read_map") else name.split(" ")[0])
+                res.fail(rule, inst, "%s|%s" % (rule, kname), f.loc(s),
                          "after a failed storage_append the sink can exit without %s: %s" % (name, why), {"path_blocks": wit})
 
 
@@ -763,7 +834,17 @@ def rule_consume(prog, res, fname, mode, rule="R-CONSUME"):
         whole = X == ("map", m, "end")
         problems = []
         detail = "N = %s" % regions.show(tN, names)
+        eff_mode = mode
         if mode == "append":
+            # a release reached only through the failure edge of a storage call (append, stop) is the error path's
+            # discard: nothing more may be appended after a failure (R-SINK-ERROR), what is left is thrown away whole
+            def failed_append(cn, lab, blk):
+                return any(cc.get("fn") in ("storage_append", "storage_stop", "storage_start") or paths.stmt_reaches(prog, f, cc, {"storage_append"})
+                           for cc in ir.calls_in(cn)) and lab == failure_label(cn)
+            if paths.edge_dominated(f, pos, failed_append)[0]:
+                eff_mode = "discard"
+                detail += "; error path (after a failed append): discard mode"
+        if eff_mode == "append":
             after_map = forward(mp)
             on_path = [(p2, s2, c2, ctx2) for p2, s2, c2, ctx2 in appends
                        if p2 in after_map and (p2 == pos or pos in forward(p2))]
@@ -782,10 +863,10 @@ def rule_consume(prog, res, fname, mode, rule="R-CONSUME"):
             if depth <= 1 and not whole:
                 problems.append(("drain", "the draining loop hands over only part of the mapping (up to %s): frames still inside their write delay when the acquisition stops are never stored" % regions.show(X, names)))
             detail += "; %d storage_append call(s) with [map.beg, %s)" % (len(on_path), regions.show(X, names))
-        elif mode in ("iterate", "discard"):
+        elif eff_mode in ("iterate", "discard"):
             if not whole:
                 problems.append(("extent", "the whole region is expected to be released, but N = %s" % regions.show(tN, names)))
-            if mode == "iterate" and whole:
+            if eff_mode == "iterate" and whole:
                 def exhausted(cnode, lab, blk):
                     if lab != "false":
                         return False
@@ -905,3 +986,57 @@ def rule_join_fresh(prog, res, rule="R-JOIN-FRESH"):
                  "acquire_map_read happens in a later acquisition is handed the frames of the stopped acquisition(s) still in that lap first")
     else:
         res.oblige(rule, inst, True, "acquire_stop flushes the monitor reader unconditionally (registering it)", f.loc(maps[0][2]))
+
+
+def rule_stop_chain(prog, res, rule="R-STOP-CHAIN"):
+    """The filter feeds the sink: its final flush may still commit frames into the
+    sink's input after it was told to stop.  The sink must therefore be told to
+    stop only after the filter has finished - otherwise the sink can do its own
+    final flush first, the filter's last frame(s) miss this acquisition's storage
+    and are still in the ring when the next acquisition starts.
+    (1) in the source worker every call of sig_stop_sink is preceded, on every
+        path, by a call of sig_stop_filter;
+    (2) the function that raises filter.is_stopping (the callback wired into
+        sig_stop_filter) does not return before the filter worker has been joined
+        (thread_join on the filter's thread object on every path after the store)."""
+    f = prog.func("video_source_thread")
+    res.touched(f)
+    sinks = [(b.id, i, s) for b, i, s in f.all_stmts() if indirect_call("sig_stop_sink")(s)]
+    if not sinks:
+        raise AnalysisBroken("video_source_thread no longer signals the sink")
+    for bid, i, s in sinks:
+        ok, w = paths.all_paths_pass(f, "entry", {(bid, i)}, indirect_call("sig_stop_filter"))
+        inst = "video_source_thread: the filter is told to stop before the sink (line %s)" % s.get("line")
+        if ok:
+            res.oblige(rule, inst, True, "", f.loc(s))
+        else:
+            res.fail(rule, inst, "%s|source|order" % rule, f.loc(s),
+                     "the source can signal the sink to stop on a path on which the filter was not stopped first: the sink's final flush can precede the filter's last emit",
+                     {"path_blocks": w})
+    raisers = []
+    for g in prog.all_funcs():
+        if not g.blocks or g.name in ("video_filter_start", "video_filter_thread", "video_filter_init"):
+            continue
+        for b, i, s in g.all_stmts():
+            if stores_const("filter.is_stopping", 1)(s):
+                raisers.append((g, b.id, i, s))
+    if not raisers:
+        raise AnalysisBroken("no function raises filter.is_stopping")
+
+    def joins_filter(x):
+        for c in calls(x, "thread_join"):
+            a = c.get("args", [])
+            if a and (ir.ap(a[0]) or "").endswith("filter.thread"):
+                return True
+        return False
+    for g, bid, i, s in raisers:
+        res.touched(g)
+        ok, w = paths.all_paths_pass(g, (bid, i), "exit", paths.through_callees(prog, g, joins_filter))
+        inst = "%s: returns only after the filter worker has finished" % g.name
+        if ok:
+            res.oblige(rule, inst, True, "thread_join(filter.thread) on every path after filter.is_stopping = 1", g.loc(s))
+        else:
+            res.fail(rule, inst, "%s|%s|no-join" % (rule, g.name), g.loc(s),
+                     "%s raises the filter's stop flag and returns at once; the source then raises the sink's flag in the same instant, so the sink can finish its final flush "
+                     "before the filter's last averaged frame is committed: that frame misses this acquisition's storage and is delivered at the start of the next one" % g.name,
+                     {"path_blocks": w})
